@@ -128,3 +128,8 @@ pub(crate) fn h_find_block_comment_end_5() {
         Err(()) => vrt_observe_u64(u64::MAX),
     }
 }
+
+/// tokenize a text for harnesses in other modules (None on tokenizer error)
+pub(crate) fn tok_for_harness(text: &str) -> Option<Vec<A2lToken>> {
+    tokenize_core(String::from("f"), 0, text).ok()
+}
